@@ -126,7 +126,11 @@ def invariants(w, cfg):
         if in_keep:
             t = [t for t in keep if t.sock is c][0]
             late = [m for m in w.murder_passes if t.timeout is not None and m >= t.timeout]
-            if late and len(w.murder_passes) > w.murder_passes.index(late[0]):
+            if t.timeout is not None and w.s.now - t.timeout > 1.0 + 0.1 and not late:
+                # the main loop went round at least once more (it never blocks longer than a second) without reaping at all
+                bad.append(("keepalive-not-expired", "idle connection %s is still open %.2f s after its keep-alive deadline and the reaper has not run since" % (
+                    c.name, w.s.now - t.timeout)))
+            elif late and len(w.murder_passes) > w.murder_passes.index(late[0]):
                 # a complete reaper pass started after the deadline and left it open
                 bad.append(("keepalive-not-expired", "idle connection %s is still open although the keep-alive reaper ran at t=%.3f, after its deadline %.3f" % (
                     c.name, late[0], t.timeout)))
@@ -144,12 +148,15 @@ def invariants(w, cfg):
                 bad.append(("keepalive-closed-early", "connection %s closed by the reaper %.2f s before its deadline" % (name, c.last_keep_deadline - at)))
     for kind, text in w.anomalies:
         bad.append(("anomaly:" + kind, text))
+    if w.spins:
+        bad.append(("busy-loop-at-capacity", "nr_conns == worker_connections == %d and nothing in flight: the main loop called futures.wait() on nothing %d x 3 times in a row "
+                    "without ever polling the selector (busy loop)" % (cfg["worker_connections"], w.spins)))
     return bad
 
 
 def drain_events(cfg):
     ka = cfg["keepalive"]
-    return ([[("tick",)]] * 3 + [[("release",)]] + [[("tick",)]] * 2 + [[("close", 0), ("close", 1)]] + [[("tick",)]] * (ka + 3) +
+    return ([[("tick",)]] * 3 + [[("release",)]] + [[("tick",)]] * 2 + [[("close", 0), ("close", 1), ("close", 2)]] + [[("tick",)]] * (ka + 3) +
             [[("term",)]] + [[("tick",)]] * 3)
 
 
@@ -163,7 +170,7 @@ def DRAIN_CHECK(w, step):
         for k, st in w.clients.items():
             c = st["sock"]
             if c.accepted and not c.closed and b"\r\n\r\n" in c.rbuf and free > 0 and wk.alive:
-                return ("request-not-served", "connection %s holds a complete request, a handler thread is free, but it was not dispatched within 3 loop periods "
+                return ("request-not-served" + ("-at-capacity" if wk.nr_conns >= w.cfg.worker_connections else ""), "connection %s holds a complete request, a handler thread is free, but it was not dispatched within 3 loop periods "
                         "(nr_conns=%d, worker_connections=%d, polls so far %d)" % (c.name, wk.nr_conns, w.cfg.worker_connections, w.polls))
             if not c.accepted and wk.alive and wk.nr_conns < w.cfg.worker_connections and c in w.listener.pending:
                 return ("connection-not-accepted", "a connection waits in the backlog, capacity is free, but it was not accepted within 3 loop periods")
@@ -349,6 +356,8 @@ CONFIGS_QUICK = [
     ({"threads": 1, "worker_connections": 3, "keepalive": 2}, 3, 2),
     # keep-alive expiry with staggered deadlines: both clients connected, then only requests and ticks
     ({"threads": 1, "worker_connections": 3, "keepalive": 3, "menu_mode": "keepalive", "prefix": [[["connect", 0], ["connect", 1]]]}, 7, 0),
+    # saturated by idle keep-alive connections: they must still be reaped when their time is up
+    ({"threads": 1, "worker_connections": 3, "keepalive": 1, "menu_mode": "keepalive", "nclients": 3, "prefix": [[["connect", 0], ["connect", 1]]]}, 5, 0),
     # saturated configurations (connections == worker_connections is reachable): shallow, they document the capacity wedge
     ({"threads": 1, "worker_connections": 1, "keepalive": 2}, 2, 1),
     ({"threads": 1, "worker_connections": 2, "keepalive": 2}, 2, 1),
